@@ -9,6 +9,12 @@ CLAIMS = {
         design_ref="DESIGN.md §2 C17",
     ),
 }
+CLAIMS["C20"] = dict(
+    text="Deductive proof over the reals/integers of the scalar helper contracts of math.py: split_float, maybe_int/is_almost_int (agreement), snap_scale (+idempotence), snap_affine (component-wise exact post), align_down/up/_pow2, clamp, _snap_edge_pos/_snap_edge/snap_grid (covers up to tol / aligned / minimal, stated in pixel units), Bin1D (+ neighbour, lookup-inverse and rebuild lemmas), data_resolution_and_offset / affine_from_axis on regularly spaced labels, is_affine_st, split_translation. Linear algebra (decompose_rws, affine_from_pts, Poly2d) is NOT decided here.",
+    note="floats are reals (A1); log2 enters through the axiom 2**(n-1) < x <= 2**n for n=ceil(log2 x); the composed snap_affine idempotence lemma is not claimed (solver unknown), its two component lemmas are",
+    technique="contract-based deductive verification: sidecar pre/postconditions + lemmas over contracts, VCs from symbolic execution of the real source, z3 then cvc5, counterexamples replayed on the real code",
+    design_ref="DESIGN.md §2 C20",
+)
 NA = {
     "C09": "xarray object-model behaviour (coords/attrs/encoding propagation); no contract within reach can state it - see DESIGN.md C09",
     "C13": "equality of GDAL warps (whole vs chunked) and dask scheduling; no contract within reach - see DESIGN.md C13",
